@@ -282,7 +282,16 @@ func c23Run(a []string) string {
 				continue
 			}
 			done = false
-			pl := make([]byte, 1+rng.Intn(1100))
+			// sizes up to what fits the default receive MTU (1460) with header, header extensions and the SRTP
+			// tag; half of the runs start every track with a packet above the 1200-byte outbound MTU
+			size := 1 + rng.Intn(1100)
+			switch {
+			case k == 0 && seed%2 == 1:
+				size = 1250 + rng.Intn(100)
+			case rng.Intn(4) == 0:
+				size = 1101 + rng.Intn(250)
+			}
+			pl := make([]byte, size)
 			rng.Read(pl)
 			s := sentT{payload: pl, ts: rng.Uint32(), marker: rng.Intn(2) == 0}
 			seq := seq0 + uint16(k) //nolint:gosec
@@ -395,7 +404,7 @@ func init() {
 		Rule: "one loopback connection per op line: 1–3 TrackLocalStaticRTP tracks (Opus, VP8, VP9, H264, AV1 from the default " +
 			"engine incl. its RTX codecs) added on either side, with or without a data channel bundled, either side " +
 			"offering (a second round when the answerer also sends); 10–30 packets per track with seeded payloads " +
-			"(1–1100 bytes), random timestamps/markers and deliberately wrong SSRC/payload type in the caller's " +
+			"(1–1350 bytes; in half of the runs the first packet of every track is larger than the 1200-byte outbound MTU), random timestamps/markers and deliberately wrong SSRC/payload type in the caller's " +
 			"packet; oracle against the a=ssrc / rtpmap of the description the receiver applied. Non-trivial: " +
 			"distinct op lines with at least one delivered packet.",
 		Gen: func(c *Ctx) {
